@@ -797,17 +797,21 @@ impl TxMessage<'_> {
     }
 }
 
-/// 64-bit FNV-1a over the protocol id, the opcode and the payload of a message
+/// 64-bit FNV-1a over the reliable flag, the protocol id, the opcode and the payload of a message
 /// (not a cryptographic hash: it guards against message builders that are not idempotent).
+///
+/// The reliable flag is part of the digest because it ends up in the (encrypted) exchange flags of
+/// the message and because `ReliableMessage::pre_send` counts only reliable (re)transmissions
+/// against the retransmission budget.
 fn payload_digest(meta: &MessageMeta, payload: &[u8]) -> u64 {
     const OFFSET: u64 = 0xcbf2_9ce4_8422_2325;
     const PRIME: u64 = 0x0000_0100_0000_01b3;
 
+    let reliable = meta.reliable as u8;
+
     let mut hash = OFFSET;
-    for byte in meta
-        .proto_id
-        .to_le_bytes()
-        .iter()
+    for byte in core::iter::once(&reliable)
+        .chain(meta.proto_id.to_le_bytes().iter())
         .chain(core::iter::once(&meta.proto_opcode))
         .chain(payload.iter())
     {
